@@ -132,12 +132,23 @@ func (me *modelEval) intOf(t *Term) (int64, bool) {
 	if s == "false" {
 		return 0, true
 	}
-	// big values (uint64 as Int)
+	// arbitrary-size integers (math-mode models are unbounded): wrap into 64 bits
+	str := strings.TrimSpace(s)
+	neg := false
+	if strings.HasPrefix(str, "(- ") && strings.HasSuffix(str, ")") {
+		neg = true
+		str = strings.TrimSpace(str[3 : len(str)-1])
+	}
+	if bi, ok := new(big.Int).SetString(str, 10); ok {
+		if neg {
+			bi.Neg(bi)
+		}
+		m := new(big.Int).Lsh(big.NewInt(1), 64)
+		bi.Mod(bi, m)
+		return int64(bi.Uint64()), true
+	}
 	if v, ok := modelInt(s); ok {
 		return v, true
-	}
-	if bi, ok := new(big.Int).SetString(s, 10); ok && bi.IsUint64() {
-		return int64(bi.Uint64()), true
 	}
 	return 0, false
 }
@@ -181,6 +192,7 @@ func (c *Ctx) valueToJSON(me *modelEval, v Value, t types.Type, depth int) (inte
 			if x.Arr != nil {
 				ln, ok := me.intOf(x.Len)
 				if !ok || ln < 0 || ln > replayMaxBytes {
+					c.Notes = append(c.Notes, fmt.Sprintf("replay: string length %d (%s) above bound", ln, x.Len))
 					return nil, false
 				}
 				bs := make([]byte, ln)
@@ -256,12 +268,14 @@ func (c *Ctx) valueToJSON(me *modelEval, v Value, t types.Type, depth int) (inte
 		ref, ok1 := me.intOf(sv.Ref)
 		ln, ok2 := me.intOf(sv.Len)
 		if !ok1 || !ok2 {
+			c.Notes = append(c.Notes, "replay: slice header not in model")
 			return nil, false
 		}
-		if ref == 0 {
-			return nil, true
+		if ref == 0 || ln < 0 {
+			return nil, true // nil slice (a negative length only occurs for memory the path never looked at)
 		}
-		if ln < 0 || ln > replayMaxElems {
+		if ln > replayMaxElems {
+			c.Notes = append(c.Notes, fmt.Sprintf("replay: slice length %d (%s) above bound", ln, sv.Len))
 			return nil, false
 		}
 		st := c.scratchState()
@@ -426,7 +440,7 @@ func verifDump(v reflect.Value, depth int) interface{} {
 		for i := 0; i < v.Len() && i < 64; i++ {
 			l = append(l, verifDump(v.Index(i), depth+1))
 		}
-		return l
+		return map[string]interface{}{"$p": uint64(v.Pointer()), "$e": l}
 	case reflect.Array:
 		l := []interface{}{}
 		for i := 0; i < v.Len(); i++ {
@@ -546,7 +560,11 @@ func genHarness(fn *ssa.Function, inputs []interface{}) (string, error) {
 		fmt.Fprintf(&body, "\tvar p%d %s\n\tverifLoad(reflect.ValueOf(&p%d).Elem(), ins[%d])\n", i, types.TypeString(p.Type(), qual), i, i)
 		argNames = append(argNames, fmt.Sprintf("p%d", i))
 	}
-	body.WriteString("\tout := map[string]interface{}{}\n")
+	body.WriteString("\tout := map[string]interface{}{}\n\tvar pre []interface{}\n")
+	for i := range fn.Params {
+		fmt.Fprintf(&body, "\tpre = append(pre, verifDump(reflect.ValueOf(&p%d).Elem(), 0))\n", i)
+	}
+	body.WriteString("\tout[\"pre\"] = pre\n")
 	body.WriteString("\tfunc() {\n\t\tdefer func() {\n\t\t\tif r := recover(); r != nil { out[\"panic\"] = fmt.Sprint(r) }\n\t\t}()\n")
 	call := ""
 	args := argNames
@@ -689,12 +707,29 @@ func (c *Ctx) jsonToValue(st *State, t types.Type, j interface{}) Value {
 		if j == nil {
 			return SliceV{Elem: u.Elem()}
 		}
-		l, _ := j.([]interface{})
+		var ptr uint64
+		l, isList := j.([]interface{})
+		if m, ok := j.(map[string]interface{}); ok && !isList {
+			l, _ = m["$e"].([]interface{})
+			ptr = jsonInt(m["$p"]).Uint64()
+		}
 		av := &ArrayV{Elem: u.Elem()}
 		for _, e := range l {
 			av.Elems = append(av.Elems, c.jsonToValue(st, u.Elem(), e))
 		}
-		o := c.newObject("replay.slice", types.NewArray(u.Elem(), int64(len(l))))
+		var o *Object
+		if ptr != 0 && c.replayPtrs != nil {
+			o = c.replayPtrs[ptr]
+		}
+		if o == nil {
+			o = c.newObject("replay.slice", types.NewArray(u.Elem(), int64(len(l))))
+			if ptr != 0 && c.replayPtrs != nil {
+				c.replayPtrs[ptr] = o
+			}
+			if c.replayPost {
+				c.replayFresh[o] = true
+			}
+		}
 		st.Mem[o] = av
 		return SliceV{Elem: u.Elem(), Obj: o, CLen: len(l), CCap: len(l)}
 	case *types.Interface:
@@ -758,18 +793,6 @@ func (c *Ctx) overwritePost(st *State, t types.Type, pre Value, j interface{}) V
 		if iv, ok := pre.(IfaceV); ok && (j == nil) == iv.Nil {
 			return pre
 		}
-	case *types.Slice:
-		sv, ok := pre.(SliceV)
-		l, ok2 := j.([]interface{})
-		if ok && ok2 && !sv.Heap && sv.Obj != nil && sv.CLen == len(l) {
-			// same backing array assumed when the length is unchanged: update elements in place
-			av := &ArrayV{Elem: u.Elem()}
-			for _, e := range l {
-				av.Elems = append(av.Elems, c.jsonToValue(st, u.Elem(), e))
-			}
-			st.Mem[sv.Obj] = av
-			return sv
-		}
 	}
 	return c.jsonToValue(st, t, j)
 }
@@ -798,7 +821,7 @@ func replayFunction(run *PropRun, g *ObGroup) ReplayOutcome {
 	for i, p := range fn.Params {
 		j, ok := c.valueToJSON(me, c.ParamVals[i], p.Type(), 0)
 		if !ok {
-			return ReplayOutcome{Detail: fmt.Sprintf("model input %s cannot be materialised (size above the replay bound, or an unsupported type)", p.Name())}
+			return ReplayOutcome{Detail: fmt.Sprintf("model input %s cannot be materialised (size above the replay bound, or an unsupported type) %v", p.Name(), c.Notes)}
 		}
 		inputs = append(inputs, j)
 	}
@@ -886,6 +909,11 @@ func evalClausesConcrete(run *PropRun, c0 *Ctx, g *ObGroup, ins []interface{}, r
 	c.curState = st
 	fr := &Frame{Fn: fn, Env: map[ssa.Value]Value{}, Block: fn.Blocks[0], Params: map[string]Value{}, Spec: sp}
 	st.Frames = []*Frame{fr}
+	c.replayPtrs = map[uint64]*Object{}
+	c.replayFresh = map[*Object]bool{}
+	if pj, ok := res["pre"].([]interface{}); ok && len(pj) == len(ins) {
+		ins = pj
+	}
 	var pre []Value
 	for i, p := range fn.Params {
 		v := c.jsonToValue(st, p.Type(), ins[i])
@@ -894,6 +922,7 @@ func evalClausesConcrete(run *PropRun, c0 *Ctx, g *ObGroup, ins []interface{}, r
 		fr.Env[p] = v
 	}
 	fr.Old = st.snapshot()
+	c.replayPost = true
 	post, _ := res["post"].([]interface{})
 	for i, p := range fn.Params {
 		if i < len(post) {
@@ -940,9 +969,45 @@ func evalClausesConcrete(run *PropRun, c0 *Ctx, g *ObGroup, ins []interface{}, r
 		}
 	}
 	c.Obs = nil
-	c.atReturn(st, ret, 1)
-	// decide each generated clause obligation; the replay confirms when the clause named by g (or, for
-	// loop-invariant failures, any postcondition) is false on the concrete values
+	// evaluate the clauses one by one (a clause that cannot be evaluated on concrete values is skipped)
+	env := c.specEnvFor(st, fr)
+	env.result = ret
+	env.hasResult = true
+	rs := fn.Signature.Results()
+	for i := 0; i < rs.Len(); i++ {
+		if nme := rs.At(i).Name(); nme != "" && nme != "_" && ret != nil {
+			if rs.Len() == 1 {
+				env.vars[nme] = ret
+			} else {
+				env.vars[nme] = ret.(*TupleV).V[i]
+			}
+		}
+	}
+	base := fnDisplay(fn)
+	tryClause := func(name, kind string, f func()) {
+		defer func() {
+			if r := recover(); r != nil {
+				if _, ok := r.(VerErr); ok {
+					return
+				}
+				panic(r)
+			}
+		}()
+		f()
+	}
+	for i, en := range sp.Ensures {
+		lbl := en.Label
+		if lbl == "" {
+			lbl = fmt.Sprint(i + 1)
+		}
+		en := en
+		name := fmt.Sprintf("%s/ensures#%s", base, lbl)
+		tryClause(name, "ensures", func() {
+			t := c.evalBool(env, en.Expr)
+			c.oblige(st, name, "ensures", t, en.Src, fn.Pos())
+		})
+	}
+	tryClause("calls", "calls", func() { c.checkCalls(st, fr, "return") })
 	var failed []string
 	want := g.Name
 	for _, o := range c.Obs {
